@@ -588,6 +588,11 @@ func (vm *VM) nextCall() bool {
 				if call.status == deferred {
 					vm.calls[i] = vm.calls[i+1]
 					vm.calls[i].status = panicked
+					// Put the stack of the deferred call after the stack
+					// of the function that deferred it.
+					if fn := vm.calls[i].cl.fn; fn != nil {
+						vm.swapStack(&call.fp, &vm.calls[i].fp, fn.NumReg)
+					}
 					i++
 					break
 				}
